@@ -2,6 +2,7 @@ package binary
 
 import (
 	"wa-lang.org/wa/internal/wasm"
+	"wa-lang.org/wa/internal/wasm/leb128"
 )
 
 var sizePrefixedName = []byte{4, 'n', 'a', 'm', 'e'}
@@ -37,6 +38,9 @@ func EncodeModule(m *wasm.Module) (bytes []byte) {
 	}
 	if m.SectionElementCount(wasm.SectionIDElement) > 0 {
 		bytes = append(bytes, encodeElementSection(m.ElementSection)...)
+	}
+	if m.DataCountSection != nil {
+		bytes = append(bytes, encodeSection(wasm.SectionIDDataCount, leb128.EncodeUint32(*m.DataCountSection))...)
 	}
 	if m.SectionElementCount(wasm.SectionIDCode) > 0 {
 		bytes = append(bytes, encodeCodeSection(m.CodeSection)...)
